@@ -189,6 +189,18 @@ def rule_trees(ctx, repo):
     loops = [s for s in body if isinstance(s, ast.For)]
     ok_loop = len(loops) == 1 and norm(loops[0].iter) == p and sorted(norm(x) for x in loops[0].body) == sorted(['hashes.append(tx.GetHash())', 'has_witness |= tx.has_witness()'])
     r.check(ok_loop, 'witness-leaves', w.site, 'leaves are the witness hashes (GetHash) of all transactions', 'witness leaves are built by `%s`' % (norm(loops[0]) if loops else texts)[:120])
+    # "some transaction has witness data" ranges over ALL transactions, the coinbase (whose witness is the reserved value) included
+    for n_ in ast.walk(w.node):
+        if isinstance(n_, (ast.GeneratorExp, ast.ListComp)) and 'has_witness()' in norm(n_.elt) and len(n_.generators) == 1:
+            it_ = n_.generators[0].iter
+            if isinstance(it_, ast.Subscript) and norm(it_.value) == p and isinstance(it_.slice, ast.Slice) and not (it_.slice.lower is None or norm(it_.slice.lower) == '0'):
+                r.violated('witness-leaves:all-transactions', common.site_of(w, n_), 'has_witness() is asked of `%s` only: a block whose only witness is the coinbase\'s reserved value raises '
+                           'NoWitnessData instead of giving the tree (and CheckBlock then skips the commitment)' % norm(it_), sure=True)
+    for lp_ in loops:
+        it_ = lp_.iter
+        if isinstance(it_, ast.Subscript) and norm(it_.value) == p and isinstance(it_.slice, ast.Slice) and any('has_witness' in norm(x) for x in ast.walk(lp_)) \
+                and not (it_.slice.lower is None or norm(it_.slice.lower) == '0'):
+            r.violated('witness-leaves:all-transactions', common.site_of(w, lp_), 'the loop that accumulates has_witness() runs over `%s` only: the coinbase\'s own witness no longer counts' % norm(it_), sure=True)
     zero = [k for k, s in enumerate(body) if isinstance(s, ast.Assign) and norm(s.targets[0]) == 'hashes[0]']
     retk = [k for k, s in enumerate(body) if isinstance(s, ast.Return)]
     loopk = [k for k, s in enumerate(body) if isinstance(s, ast.For)]
